@@ -23,7 +23,10 @@ theorem find_sortedKids (ck : Bytes) (ks : KMap CDiff) :
 theorem nodupKeys_sortedKids {ks : KMap CDiff} (h : NodupKeys ks) :
     NodupKeys (ks.map (fun e => (e.1, e.2.upserts, e.2.deletes))) := by
   unfold NodupKeys at *
-  simpa [List.map_map] using h
+  have e : (ks.map (fun e => (e.1, e.2.upserts, e.2.deletes))).map (fun x => x.1) =
+      ks.map (fun x => x.1) := by
+    rw [List.map_map]; rfl
+  rw [e]; exact h
 
 /-- a child that no change set mentions is left alone by phase 2 -/
 theorem phase2_kid_notin (ks : List (Bytes × List (Bytes × Bytes) × List Bytes)) (l : Logical)
@@ -36,8 +39,10 @@ theorem phase2_kid_notin (ks : List (Bytes × List (Bytes × Bytes) × List Byte
     · simp [he] at h
     · simp only [he, if_false] at h
       simp only [List.foldl_cons]
-      rw [ih _ h, applyKidI_eq, kid_foldl_clear, kid_foldl_put]
       have : ¬ ck = e.1 := fun x => he x.symm
+      rw [ih _ h, applyKidI_eq, kid_foldl_clear]
+      simp only [this, if_false]
+      rw [kid_foldl_put]
       simp [this]
 
 section eff
@@ -54,8 +59,8 @@ theorem effL_main (hb : b.WF) (hd : DiffWF d)
       else if Logical.isChildKey k then OMap.get k b.main
       else ov (KMap.find k d.c.upserts) (OMap.get k b.main) := by
   unfold effL applyIdeal
-  rw [phase3_main _ hd.dels (phase2_wf _ (phase1_wf _ hb)), phase2_main]
   simp only [Diff.sortedOrder]
+  rw [phase3_main _ hd.dels (phase2_wf _ (phase1_wf _ hb)), phase2_main]
   rw [phase1_get _ hd.ups]
   by_cases hk : k ∈ d.c.deletes
   · obtain ⟨h1, h2⟩ := hdel k hk
@@ -77,8 +82,8 @@ theorem effL_kid (hb : b.WF) (hd : DiffWF d)
                   else ov (KMap.find k c.upserts) (OMap.get k (kidOf b ck))
       | none => OMap.get k (kidOf b ck) := by
   unfold effL applyIdeal
-  rw [phase3_kid _ (phase2_wf _ (phase1_wf _ hb))]
   simp only [Diff.sortedOrder]
+  rw [phase3_kid _ (phase2_wf _ (phase1_wf _ hb))]
   by_cases hk : ck ∈ d.c.deletes
   · obtain ⟨h1, h2⟩ := hdel ck hk
     simp [hk, h1, h2, OMap.get]
@@ -95,7 +100,7 @@ theorem effL_kid (hb : b.WF) (hd : DiffWF d)
       obtain ⟨x, hx, rfl⟩ := he
       exact hd.kidUps x hx
 
-theorem effL_empty (hb : b.WF) : effL b Diff.empty = b := by
+theorem effL_empty : effL b Diff.empty = b := by
   rfl
 
 end eff
